@@ -1447,3 +1447,16 @@ m('VG1-tensor-check-rejects-tensors', 'C20', 'VG1', 'torch._unravel_empty', 'opt
   """    if torch.is_tensor(flat):
         raise ValueError(f'Expected a tensor to unravel, got {type(flat)!r}.')
     if flat.shape != (0,):""")
+m('E1-hash-guard-cleaned-for-runtime-errors-only', 'C15', 'E1', 'HashValue/cleanup-handler-catches-everything', 'src/treespec/hashing.cpp',
+  """    } catch (...) {
+        {
+            const scoped_write_lock_guard lock{mutex};
+            running.erase(ident);
+        }
+        std::rethrow_exception(std::current_exception());""",
+  """    } catch (const std::runtime_error&) {
+        {
+            const scoped_write_lock_guard lock{mutex};
+            running.erase(ident);
+        }
+        std::rethrow_exception(std::current_exception());""")
